@@ -16,3 +16,13 @@ NOT_COVERED = ["balanced tree (trees.c)", "IdentifySection / qualifier parsing",
 EXPLANATION = ("Kernel only: SymbolAdder decides constant vs variable vs redefinition and when another pass is requested; the section walk and "
                "temporary-symbol counters follow; the run-level statement (every reference resolves as the manual prescribes) is an induction "
                "over these per-call facts and the unverified tree/section code.")
+
+MANIFEST = dict(
+    category="other",
+    text="Contracts on the kernel of symbol handling in asmpars.c: SymbolAdder (a constant defined twice is an error and keeps its value; constant "
+         "and variable cannot change kind; a variable is replaced; usage carried), FindNode (innermost enclosing section first, then outward to "
+         "global, wrong-kind entries do not hide outer ones, FORWARD names stay local in early passes) and LookupSymbol (value, used flag, "
+         "forward/questionable flags). The symbol tree itself is an oracle; qualifiers, PUBLIC/GLOBAL redirection, temporary symbols and "
+         "PUSHV/POPV are named unverified.",
+    note="Bounded: section nesting depth <= 2, one fixed plain name. Trusted: SearchTree oracle, message stubs, no relocations.",
+)
